@@ -10,6 +10,11 @@ import json, os, re, subprocess, sys, tempfile
 HERE = os.path.dirname(os.path.dirname(os.path.abspath(__file__)))
 
 FINDINGS = {
+    "F-C17-1": {
+        "property": "C17",
+        "tiers": ["quick", "thorough"],
+        "match": lambda r: r["kind"] == "not-exhaustive" and ".." in r["case"]["query"],
+    },
     "F-C05-1": {
         "property": "C05",
         "tiers": ["quick", "thorough"],
